@@ -1,6 +1,7 @@
 import BoltonsVerif.C01.Proofs
 import BoltonsVerif.C01.ConcreteProofs
 import BoltonsVerif.C01.OwnProofs
+import BoltonsVerif.C01.OwnCompound
 import BoltonsVerif.C01.Natural
 import BoltonsVerif.C01.KeyNatural
 import BoltonsVerif.C01.Iter
@@ -640,6 +641,32 @@ theorem own_vals_is_model_vals (o : Own K V) (s : OMD K V) (h : Inv s) (k : K) (
       obtain ⟨x, hx⟩ := getLast?_of_ne hne
       simp only [this, ↓reduceIte, hx]
 
+/-- the compound mutators reach the dict storage only through those primitive statements: for `update` / `|=`
+    (with self, another OMD, a mapping, any iterable of pairs, keyword arguments), `update_extend` (hence the
+    constructor, `copy`, the copy module, pickle), `setdefault` and `pop` (hence `popitem`), running the listed
+    primitives on the ownership layer from any separated state that reads as the model's storage gives a
+    separated state that reads as the model's storage after the mutator: no public mutator can make the
+    dictionary share a list object with its caller, or two keys share one -/
+theorem compound_mutators_keep_separation (o : Own K V) (h : Sep o) (s : OMD K V) (hv : o.vals = s.vals)
+    (E : Arg K V) (F : List (K × V)) (k : K) (v : V) (d : Bool) :
+    (Sep (ownRun o (compileUpdate s E F)) ∧ (ownRun o (compileUpdate s E F)).vals = (s.update E F).vals) ∧
+    (Sep (ownRun o (compileUpdateExtend s E F)) ∧
+      (ownRun o (compileUpdateExtend s E F)).vals = (s.updateExtend E F).1.vals) ∧
+    (Sep (ownRun o (compileSetdefault s k v)) ∧ (ownRun o (compileSetdefault s k v)).vals = (s.setdefault k v).1.vals) ∧
+    (Sep (ownRun o [.popall k]) ∧ (ownRun o [.popall k]).vals = (s.pop k d).1.vals) := by
+  refine ⟨?_, ?_, ?_, ?_⟩
+  · have := ownRun_pure _ o h (compileUpdate_pure s E F)
+    exact ⟨this.1, by rw [this.2, hv, update_vals]⟩
+  · have := ownRun_pure _ o h (compileUpdateExtend_pure s E F)
+    exact ⟨this.1, by rw [this.2, hv, updateExtend_vals]⟩
+  · have := ownRun_pure (compileSetdefault s k v) o h (by
+      intro op hop; unfold compileSetdefault at hop; split at hop
+      · simp at hop
+      · simp only [List.mem_singleton] at hop; subst hop; rfl)
+    exact ⟨this.1, by rw [this.2, hv, setdefault_vals]⟩
+  · have := ownRun_pure [OwnOp.popall k] o h (by intro op hop; simp only [List.mem_singleton] at hop; subst hop; rfl)
+    exact ⟨this.1, by rw [this.2, hv, pop_vals]⟩
+
 /-- a caller that writes whatever it likes into any list object it holds - one it handed to `addlist`,
     one it got from `getlist` / `todict(multi=True)` / `popall` - cannot change what the dictionary reads -/
 theorem caller_writes_are_invisible (o : Own K V) (h : Sep o) (i : Nat) (vs : List V) :
@@ -860,5 +887,13 @@ example : Function.Injective (fun k : Nat => k + 10) := fun a b h => by simpa us
 example : let l : PL Nat Nat := ((hrun3 HState3.init [.new (some (.pairs [(0, 0), (1, 1), (0, 2)])) []]).map (·.1.s.ll)).headD PL.empty
     l.ids = [1] ++ 2 :: [3] ∧ l.rest 2 = [2, 3] ∧ (l.insert 5 5).rest 2 = [2, 3, 4] ∧
     walk (unlinkP 2 (l.nxt, l.prv)).1 l.fresh 2 = [2, 3] := by decide
+
+/-- `update` with pairs as primitive storage steps: a repeated key is deleted once, at its first occurrence -/
+example : compileUpdate (OMD.fromPairs [(0, 1)] : OMD Nat Nat) (.pairs [(0, 5), (2, 6), (0, 7)]) [(3, 8)] =
+    [.delKey 0, .add 0 5, .delKey 2, .add 2 6, .add 0 7, .setitem 3 8] := rfl
+/-- `Sep o` and `o.vals = s.vals` are met, e.g., by the layer run next to the model from the empty dictionary -/
+example : Sep (ownRun (Own.empty : Own Nat Nat) [.add 0 1, .add 1 2, .add 0 3]) ∧
+    (ownRun (Own.empty : Own Nat Nat) [.add 0 1, .add 1 2, .add 0 3]).vals = (OMD.fromPairs [(0, 1), (1, 2), (0, 3)] : OMD Nat Nat).vals :=
+  ⟨own_separation_history _, by decide⟩
 
 end C01
